@@ -49,3 +49,7 @@ add("C07", "model_checking", "explicit-state BFS over operation histories of rea
     "Breadth-first search (depth 7 quick / 9 thorough, all states up to the bound fully expanded) over New/NewKey/Switch/Add/Write/Read(D) on two live objects; on every Write each block is unwrapped by independent reference code and must agree with the object's key and the directory MACs, unopened blocks must stay byte-identical, key and ephemeral freshness is checked against the logged randomness seam. Splice: every ordered pair of block kinds x differing key pairs (incl. every single-bit difference) must be rejected / accepted as stated.",
     "State merging assumes behaviour depends on the hashed fields and the randomness stream only; reference AES/CRC/EC trusted after self-checks.",
     "E2+E1", "DESIGN.md 4/C07")
+add("C10", "exploration", "bounded exhaustive enumeration of dictionaries (<=3/4 entries over a boundary universe) and of length vectors around the 117-byte limit, decoded by an independent decoder",
+    "Every dictionary with <= 3 (thorough 4) entries over a universe of keys/value ids/kinds/boundary lengths, every length vector over an 8-symbol alphabet up to 4 (5) entries under one and alternating keys, a directed family that makes blocks close at exactly 112..120 bytes after every prefix, oversize entries in every position, and caller-supplied blocks: the blob is decoded by an independent decoder and compared with the reference operation list, block sizes and component tags.",
+    "The TLV grammar is inferred from the encoder and the statement; a value list may be closed by block end.",
+    "E1", "DESIGN.md 4/C10")
